@@ -522,7 +522,8 @@ Section BR.
     match mine with
     | [] => 0
     | _ => match @reduce_max RNum (fold_left (paystep me0 mu) mine (@repeatT RNum 0 arity)) with
-           | Some m => m / @sum RNum (map (fun e => snd (snd e)) mine)
+           | Some m => if Rltb 0 (@sum RNum (map (fun e => snd (snd e)) mine))
+                       then m / @sum RNum (map (fun e => snd (snd e)) mine) else 0
            | None => 0
            end
     end.
@@ -552,7 +553,8 @@ Section BR.
       with (map (fun e : nat * (list nodeR * R) => snd (snd e)) mine)
       by (rewrite map_map; reflexivity).
     destruct mine as [|e0 mine0]; [lra|].
-    destruct (@reduce_max RNum _) as [m|]; cbn [option_map]; [unfold Rdiv; ring|lra].
+    destruct (@reduce_max RNum _) as [m|]; cbn [option_map]; [|lra].
+    destruct (Rltb 0 _); [unfold Rdiv; ring|lra].
   Qed.
 
   Lemma resolve_from_sim nodes ars i k :
